@@ -26,7 +26,10 @@ META = {
             "line REPL-style) and the `ego test` pipeline of a nasty corpus, token-level mutations of tests/*.ego, generated "
             "programs aimed at partial operations, concurrent programs (goroutines + channels + sync: senders and receivers parked "
             "while another goroutine closes, double close, close racing sends, closed and nil channels), byte noise and deep "
-            "nesting, under recover(), a SIGINT deadline and a heap "
+            "nesting, and constant-expression programs (literals of every integer width, / and % by a literal zero, MinInt64 / -1, "
+            "huge and negative shift counts, out-of-range conversions, constant indexing) run at EVERY optimizer level 0-3 "
+            "(ego.compiler.optimize; at 1-3 the peephole optimizer evaluates them inside ByteCode.Seal while compiling; the other "
+            "generators run a share of their cases a second time at a level 1-3), under recover(), a SIGINT deadline and a heap "
             "watchdog, in child processes so that runtime fatals (stack overflow) are attributed to an input.",
     "note": "trusted: Lean kernel; tools/extract_c07 (go/ast, syntactic: field names Tokens/stack/TokenP/stackPointer/framePointer); "
             "the T2 harnesses; the reviewed allow-list (lean/EgoVerif/C07/Sites.lean) — its entries are reviewed, not proved. "
@@ -43,7 +46,8 @@ META = {
             "(slice [1:0]), the source text `x := [:]` (unbounded recursion parseArray <-> compileArrayRangeInitializer: fatal stack "
             "overflow in the compiler), make() with a size beyond Go's allocation limit (makeslice panic) and the debugger's getLine on a comment-only / empty-string command (index [-1] in the debugger "
             "goroutine: kills the server from /admin/run debug mode). Left as known findings: self-referential maps/arrays "
-            "overflow the Go stack in the formatter / JSON sanitizer (fatal, unrecoverable).",
+            "overflow the Go stack in the formatter / JSON sanitizer (fatal, unrecoverable); the exponent operator with a float "
+            "and a non-float operand (1.5 ^ 2) panics in exponentByteCode (interface conversion).",
     "technique": "Lean 4 proof (induction over call sequences, Except-monad model of Go partial operations) + go/ast translator "
                  "obligation + model/implementation correspondence + budgeted fuzz search",
     "design_ref": "DESIGN.md §6 C07",
